@@ -710,6 +710,7 @@ def edges_enumerated(F, rep, rule, fn, enum, carrier="TyID"):
 # --------------------------------------------------------------------------- dropped results
 
 def dropped_results(F, rep, rule, prefixes):
+    from engines import strip_ty
     """an expression statement whose value is a Result is an error that nobody looks at (rustc only warns)"""
     n = 0
     for prefix in prefixes:
@@ -726,6 +727,27 @@ def dropped_results(F, rep, rule, prefixes):
                         rep.ob(rule, "%s|%s" % (last(fn["_path"], 2), pp(e)[:50].replace("\n", " ")), False,
                                "a value of type Result<_, Vec<Error>> is computed and dropped in %s: the error it may carry is never reported" % last(fn["_path"], 2),
                                line_of(e))
+    # .. nor one whose error half is thrown away by an adaptor: `r.unwrap_or_default()`, `r.ok()`, `r.unwrap_or(..)`,
+    # `r.map_or(..)`, `r.is_ok()` on a Result<_, Vec<Error>> continue as if the part of the program that failed were not there
+    SWALLOW = {"unwrap_or_default", "unwrap_or", "unwrap_or_else", "ok", "map_or", "map_or_else", "is_ok", "is_err", "into_iter", "iter", "and"}
+    m_ = 0
+    for prefix in prefixes:
+        for fn in F.fns_in(prefix):
+            k_ = 0
+            for c in nodes(fn_body(fn), "MethodCall"):
+                if c["m"] not in SWALLOW:
+                    continue
+                rt = strip_ty(c.get("recv_ty") or "")
+                if not (rt.startswith("core::result::Result<") and "sylt_common::error::Error" in rt):
+                    continue
+                m_ += 1
+                if c["m"] in ("is_ok", "is_err", "and"):
+                    continue   # a test / a combination keeps the value around: followed separately by RET-FOLD
+                k_ += 1
+                rep.ob(rule, "%s|%s#%d" % (last(fn["_path"], 2), c["m"], k_), False,
+                       "%s turns a Result<_, Vec<Error>> into a plain value with `.%s()`: the errors it may carry are never reported and "
+                       "the construct they belong to is silently left out (an undeclared name inside a loop body: the program is accepted "
+                       "and the loop emitted with an empty body)" % (last(fn["_path"], 2), c["m"]), line_of(c))
     rep.ob(rule, "census", True, "no dropped compile-error Result in %s (%d found)" % ([p.rstrip(":") for p in prefixes], n), sites=1)
 
 
@@ -836,6 +858,7 @@ def field_set_agreement(F, rep, rule, fn, variant="Blob", field="2"):
                 if alt.get("k") != "Tuple" or len(alt["pats"]) != 2:
                     continue
                 sides = []
+                both_x = all(last(pat_variant(p) or "") == variant for p in alt["pats"])
                 for p in alt["pats"]:
                     if last(pat_variant(p) or "") != variant:
                         break
@@ -843,6 +866,16 @@ def field_set_agreement(F, rep, rule, fn, variant="Blob", field="2"):
                     if len(b) != 1:
                         break
                     sides.append(b[0])
+                if both_x and len(sides) != 2:
+                    # a row for two X types that does not even name their keyed collections: whatever it compares, it is not the
+                    # fields / variants (`Maybe(fn ..)` against `Maybe(pu ..)` decided by the type arguments alone)
+                    n_rows += 1
+                    k_un = sum(1 for o in rep.obs if o["key"].startswith("%s|%s|row-compares-the-members" % (last(fn["_path"]), variant))) + 1
+                    rep.ob(rule, "%s|%s|row-compares-the-members#%d" % (last(fn["_path"]), variant, k_un), False,
+                           "%s has a row for two %s types that binds neither side's members: two %ss are then unified without their "
+                           "%s being compared (payload types - and the purity of functions in them - go unchecked)" % (
+                               last(fn["_path"]), variant, variant.lower(), "variants" if variant == "Enum" else "fields"), line_of(arm))
+                    continue
                 if len(sides) != 2:
                     continue
                 n_rows += 1
